@@ -20,7 +20,7 @@ var interestingI64 = []int64{0, 1, -1, 127, 128, -128, -129, 255, 256, 32767, 32
 	math.MaxInt32, math.MaxInt32 + 1, math.MinInt32, math.MinInt32 - 1, math.MaxInt64, math.MinInt64, math.MaxInt64 - 1, math.MinInt64 + 1}
 
 var interestingF64 = []uint64{
-	0, 0x8000000000000000, // +0, -0
+	0, 0x8000000000000000, 0, 0x8000000000000000, // +0, -0 (twice: +0 == -0 with different bits is the classic trap)
 	0x7ff0000000000000, 0xfff0000000000000, // +-inf
 	0x7ff8000000000000, 0x7ff8000000000001, 0xfff8000000000000, 0x7ff0000000000001, 0xffffffffffffffff, // NaNs (quiet, payload, negative, signalling)
 	0x0000000000000001, 0x000fffffffffffff, 0x0010000000000000, // subnormals / min normal
